@@ -6,8 +6,7 @@
  "replace": [],
  "annotate": ["events/events_network.c"],
  "defines": ["VERIF_HALLOC", "NET_FIXCAP"],
- "allow_undefined": ["libcperciva_warn", "libcperciva_warnx"],
- "models": ["models/ev_poll.c", "models/ev_atexit.c", "models/ev_selectstats.c"],
+ "models": ["models/ev_poll.c", "models/ev_atexit.c", "models/ev_selectstats.c", "models/ev_warnp.c"],
  "timeout": 300,
  "assumptions": ["object-size parameters: <= NS_Q descriptors in S, <= NF_Q initialised / NF_A allocated pollfd entries (for-all invariants expanded over these constants)",
                  "meta-level induction over histories (L-ind)"]
@@ -31,7 +30,7 @@ h_clearbit(void)
 	EV_SPEC_BEGIN
 	/* INV_net everywhere except at the descriptor whose slot was just emptied (clearbit's own precondition) */
 	__CPROVER_assume(pollpos < nfds && (bit == POLLIN || bit == POLLOUT));
-	__CPROVER_assume(NET_ALL_F && NET_INV_G && NET_ALL_S_BUT((size_t)fds[pollpos].fd));
+	__CPROVER_assume(NET_ALL_F & NET_INV_G & NET_ALL_S_BUT((size_t)fds[pollpos].fd));
 	__CPROVER_assume((fds[pollpos].events & bit) != 0);
 	__CPROVER_assume(bit == POLLIN ? (NS_R(fds[pollpos].fd).reader == NULL && NET_S_WR(fds[pollpos].fd)) :
 	    (NS_R(fds[pollpos].fd).writer == NULL && NET_S_RD(fds[pollpos].fd)));
